@@ -3,7 +3,7 @@ import os
 
 import vf
 
-MCCONS = {"quick": {"G": 2}, "thorough": {"G": 3}}
+MCCONS = {"quick": {"G": 2}, "thorough": {"G": 2}}
 
 
 def raster_pipeline(chk, tier, tv_module, pid):
@@ -24,6 +24,20 @@ def run(tier):
     cfg = vf.write_cfg(os.path.join(d, "MC_Raster.cfg"), MCCONS[tier], invariants=["SharedEdge", "OrderFree", "Partition"])
     r = vf.tlc("MC_Raster", cfg, workers=8, gc="parallel", heap="8g")
     chk.add_mc("MC_Raster", r, MCCONS[tier])
+    # the implementation-shaped scan conversion refines the relation on the whole lattice
+    # (and a variant without the half-pixel rounding offset does not: negative control)
+    g = 3 if tier == "quick" else 4
+    for variant in ("ok", "nohalf"):
+        icfg = os.path.join(d, "ScanImpl_%s.cfg" % variant)
+        with open(icfg, "w") as f:
+            f.write('CONSTANTS\n  G = %d\n  Variant = "%s"\nSPECIFICATION Spec\nINVARIANT RefinesRaster\nCHECK_DEADLOCK FALSE\n' % (g if variant == "ok" else 2, variant))
+        ri = vf.tlc("ScanImpl", icfg, workers=8, gc="parallel", heap="8g", tag="ScanImpl_" + variant)
+        if variant == "ok":
+            chk.add_mc("ScanImpl (refines Raster)", ri, {"G": g})
+        elif not ri.violated:
+            raise vf.ToolError("ScanImpl without the half-pixel offset still refines Raster: the refinement check lost its teeth")
+        else:
+            vf.log("[tlc] ScanImpl/nohalf: refinement violated as expected (negative control)")
     raster_pipeline(chk, tier, "TV_RasterCov", "C04")
     chk.cov["exhaustive"] = True
     chk.cov["distinct_nontrivial"] = chk.cov["traces_validated_against_impl"]
